@@ -426,7 +426,8 @@ def check_extra(res, counters):
     objs += [("dataset(argument=datasetclass)", dataset.nocache(_holder), {"B": 3}), ("dataset(keyword argument=datasetclass)", dataset.nocache(_kwholder), {"B": 3}),
              ("step(argument=datasetclass)", Value(1) >> pipeline_step(_stepfn), {"B": 3}), ("list(datasetclass)", evaluatable_list(dc, Value(0)), {"B": 3}),
              ("switch-branch datasetclass", Switch(Option("K", "x"), {"x": dc}), {"B": 3}), ("coalesce(datasetclass)", coalesce(dc, Value(0)), {"B": 3}),
-             ("datasetclass >> f", dc >> w.fn("f"), {"B": 3})]
+             ("datasetclass >> f", dc >> w.fn("f"), {"B": 3}),
+             ("datasetclass.bind(f)", dc.bind(lambda v: Value(("bound", v))), {"B": 3})]
     for name, obj, o in objs:
         for op in OPS4:
             base = observe(w, lambda: getattr(obj, op)(copy.deepcopy(o)))
@@ -464,7 +465,7 @@ def check_extra(res, counters):
             got = observe(w, lambda: obj.evaluate(copy.deepcopy(o)))
         res["evaluations"] += 1
         want = ["STUB", "STUB"] if name.startswith("Map") else "STUB"
-        if name in ("dataset(argument=datasetclass)", "dataset(keyword argument=datasetclass)", "step(argument=datasetclass)", "list(datasetclass)", "datasetclass >> f"):
+        if name in ("dataset(argument=datasetclass)", "dataset(keyword argument=datasetclass)", "step(argument=datasetclass)", "list(datasetclass)", "datasetclass >> f", "datasetclass.bind(f)"):
             # the holder hands the substituted value on inside its own result
             want = got.value if got.ok and "STUB" in repr(got.value) and "DC(" not in repr(got.value) else "<a value built from 'STUB'>"
         if not got.ok or got.value != want:
